@@ -50,6 +50,17 @@ CLASS_HOME = {'SpikeTrain': 'pyspike/SpikeTrain.py', 'PieceWiseConstFunc': 'pysp
               'PieceWiseLinFunc': 'pyspike/PieceWiseLinFunc.py', 'DiscreteFunc': 'pyspike/DiscreteFunc.py'}
 
 
+TRUNC = z3.Function('trunc_toward_zero', R, I)
+
+
+class Arr2(object):
+    """2-D numpy array with a concrete number of rows: a list of 1-D row arrays of equal length"""
+    __slots__ = ('rows', 'n')
+
+    def __init__(self, rows, n):
+        self.rows, self.n = rows, n
+
+
 class Obl(object):
     __slots__ = ("name", "hyp", "goal", "kind", "meta")
 
@@ -378,10 +389,33 @@ class Engine(object):
             f = st.heap[v.id]
             if e.attr in f:
                 return f[e.attr]
+            d = self.ctor_default(v.cls, e.attr)
+            if d is not None:
+                # object built by a contract (not through __init__): a field the constructor initialises with a constant
+                f[e.attr] = d[0]
+                return d[0]
             return ('__method__', v, e.attr)
         if isinstance(v, (ArrV, LazyArr)) and e.attr == 'shape':
             return (v.n,)
+        if isinstance(v, Arr2) and e.attr == 'shape':
+            return (len(v.rows), v.n)
         raise Unsupported("attribute %s at line %d" % (full, e.lineno))
+
+    def ctor_default(self, cls, attr):
+        """(constant,) if cls.__init__ contains `self.<attr> = <constant>`, else None"""
+        from . import source
+        try:
+            cd = self.classes.get(cls) or {m.name: m for m in source.module(CLASS_HOME[cls]).classes[cls].body if hasattr(m, 'name')}
+        except Exception:
+            return None
+        if attr in cd or '__init__' not in cd:
+            return None
+        for n in ast.walk(cd['__init__']):
+            if isinstance(n, ast.Assign) and len(n.targets) == 1 and isinstance(n.targets[0], ast.Attribute) \
+                    and isinstance(n.targets[0].value, ast.Name) and n.targets[0].value.id == 'self' and n.targets[0].attr == attr \
+                    and isinstance(n.value, ast.Constant):
+                return (n.value.value,)
+        return None
 
     # -- indexing ----------------------------------------------------------------------------
     def norm_index(self, i, n):
@@ -406,6 +440,38 @@ class Engine(object):
 
     def ev_Subscript(self, e, st, pc):
         v = self.ev(e.value, st, pc)
+        if isinstance(v, Arr2):
+            return self.index2(v, e.slice, st, pc, e)
+        return self.index_value(v, e, st, pc)
+
+    def index2(self, v, sl, st, pc, e):
+        """a[r], a[r, <index or slice>], a[:, k] of a 2-D array with concrete row count"""
+        if isinstance(sl, ast.Tuple) and len(sl.elts) == 2:
+            r_ast, c_ast = sl.elts
+            if isinstance(r_ast, ast.Slice) and r_ast.lower is None and r_ast.upper is None and r_ast.step is None:
+                if isinstance(c_ast, ast.Slice):
+                    raise Unsupported("2-D block slice at line %d" % e.lineno)
+                k = self.ev(c_ast, st, pc)
+                k = self.norm_index(k, v.n)
+                self.bounds(k, v.n, pc, ast.unparse(e)[:40], e)
+                return LazyArr(len(v.rows), lambda q, v=v, k=k: st.elem(v.rows[q], k))
+            r = self.ev(r_ast, st, pc)
+            if not isinstance(r, int) or isinstance(r, bool):
+                raise Unsupported("symbolic row index at line %d" % e.lineno)
+            if not (-len(v.rows) <= r < len(v.rows)):
+                self.oblige("bounds:%s@%d" % (ast.unparse(e)[:40], e.lineno), pc, False)
+                raise PathAbort()
+            fake = ast.Subscript(value=e.value, slice=c_ast, ctx=ast.Load())
+            ast.copy_location(fake, e)
+            return self.index_value(v.rows[r], fake, st, pc)
+        if isinstance(sl, ast.Slice):
+            raise Unsupported("row slice of a 2-D array at line %d" % e.lineno)
+        r = self.ev(sl, st, pc)
+        if not isinstance(r, int) or isinstance(r, bool) or not (-len(v.rows) <= r < len(v.rows)):
+            raise Unsupported("row index at line %d" % e.lineno)
+        return v.rows[r]
+
+    def index_value(self, v, e, st, pc):
         if isinstance(v, (list, tuple)):
             if isinstance(e.slice, ast.Slice):
                 lo = self.ev(e.slice.lower, st, pc) if e.slice.lower is not None else None
@@ -725,7 +791,8 @@ class Engine(object):
             return x
         if is_real_sorted(x) and self.mode == 'B':
             # truncation towards zero of a symbolic real: fresh integer with its defining inequalities, then made concrete
-            k = fresh('trunc', I)
+            # (a function of the argument: re-executing the statement after a fork meets the same symbol again)
+            k = TRUNC(toR(x))
             kr = z3.ToReal(k)
             pc.assume(z3.If(x >= 0, z3.And(kr <= x, x < kr + 1), z3.And(kr >= x, x > kr - 1)))
             vals = self.concretize(k, pc, limit=16)
@@ -816,6 +883,8 @@ class Engine(object):
 
     def _alloc(self, n, st, pc, node, init, like=None):
         if isinstance(n, tuple):
+            if len(n) == 2 and isinstance(n[0], int) and not isinstance(n[0], bool) and 0 <= n[0] <= 8:
+                return Arr2([self._alloc(n[1], st, pc, node, init) for _ in range(n[0])], n[1])
             raise Unsupported("2-D allocation")
         if not (isinstance(n, int) or is_int_sorted(n)):
             raise Unsupported("allocation size %r" % (n,))
@@ -904,6 +973,53 @@ class Engine(object):
     def bi_np_append(self, args, kw, st, pc, node):
         vals = self._elems(args[0], st) + self._elems(args[1], st)
         return st.alloc(vals, len(vals), "append@%d" % node.lineno)
+
+    def bi_np_bincount(self, args, kw, st, pc, node):
+        """assumed numpy contract: out[v] = number of occurrences of v, length max(minlength, max+1); negative -> error"""
+        idx = self._elems(args[0], st, pc)
+        if not all(isinstance(k, int) and not isinstance(k, bool) for k in idx):
+            raise Unsupported("np.bincount of symbolic values")
+        ml = kw.get('minlength', args[1] if len(args) > 1 else 0)
+        if not isinstance(ml, int):
+            raise Unsupported("np.bincount with symbolic minlength")
+        if any(k < 0 for k in idx):
+            raise PyRaise('ValueError')
+        n = max([ml] + [k + 1 for k in idx])
+        out = [sum(1 for k in idx if k == v) for v in range(n)]
+        return st.alloc(out, n, "bincount@%d" % node.lineno)
+
+    def bi_np_cumsum(self, args, kw, st, pc, node):
+        vals = self._elems(args[0], st, pc)
+        out, r = [], 0
+        for v in vals:
+            r = arith('+', r, v)
+            out.append(r)
+        dst = kw.get('out')
+        if dst is not None:
+            if not isinstance(dst, ArrV):
+                raise Unsupported("np.cumsum(out=...) into a non-array")
+            self.store_slice(dst, 0, dst.n, 1, LazyArr(len(out), lambda k, out=out: out[k]), st, pc, node)
+            return dst
+        return st.alloc(out, len(out), "cumsum@%d" % node.lineno)
+
+    def bi_np_random_exponential(self, args, kw, st, pc, node):
+        """assumed contract of the generator: n finite draws >= 0 (nothing else is assumed about them). The draws are
+        recorded in ctx.draws so that a counterexample can be replayed with np.random.exponential returning them."""
+        n = args[1] if len(args) > 1 else kw.get('size')
+        if not isinstance(n, int) or isinstance(n, bool):
+            raise Unsupported("np.random.exponential with a symbolic number of draws")
+        k = st.vars.get('__ndraws__', 0)              # per-path number of calls so far
+        st.vars['__ndraws__'] = k + 1
+        dv = getattr(self.ctx, 'draw_values', None)
+        if dv is not None:
+            # concrete replay: the k-th call returns the k-th recorded array (missing draws: 0)
+            rec = list(dv[k]) if k < len(dv) else []
+            vals = [num(rec[i]) if i < len(rec) else 0 for i in range(n)]
+        else:
+            vals = [z3.Real('draw%d_%d' % (k, i)) for i in range(n)]
+            for v in vals:
+                pc.assume(v >= 0)
+        return st.alloc(vals, n, "exponential@%d" % node.lineno)
 
     def bi_np_insert(self, args, kw, st, pc, node):
         base, idx, new = self._elems(args[0], st, pc), args[1], self._elems(args[2], st, pc)
@@ -1102,7 +1218,7 @@ class Engine(object):
             st.vars[tgt.id] = val
             return
         if isinstance(tgt, (ast.Tuple, ast.List)):
-            if isinstance(val, (ArrV,)) and isinstance(val.n, int):
+            if isinstance(val, (ArrV, LazyArr)) and isinstance(val.n, int):
                 val = tuple(st.elem(val, k) for k in range(val.n))
             if not isinstance(val, (tuple, list)) or len(val) != len(tgt.elts):
                 raise Unsupported("unpacking at line %d" % tgt.lineno)
@@ -1158,7 +1274,10 @@ class Engine(object):
             if not isinstance(o, Rec):
                 raise Unsupported("attribute store at line %d" % tgt.lineno)
             f = st.heap[o.id]
-            if not f.get('__local__', False) and o.id not in self.modifies:
+            decl = f.get('__declared__')
+            if not f.get('__local__', False) and o.id not in self.modifies and (decl is None or tgt.attr in decl):
+                # (attributes outside the state the contract declares - private caches and the like - may be written:
+                #  whether such state is harmless is decided by the history checks, not by the frame)
                 self.oblige("frame:attr-store:%s@%d" % (tgt.attr, tgt.lineno), pc, False)
             nf = dict(f)
             nf[tgt.attr] = val
@@ -1335,7 +1454,8 @@ class Engine(object):
             return st.vars[f.id], '__call__'
         if isinstance(f, ast.Attribute) and isinstance(f.value, ast.Name) and isinstance(st.vars.get(f.value.id), Rec):
             r = st.vars[f.value.id]
-            if r.cls in CLASS_HOME and r.cls not in self.classes:
+            if r.cls in CLASS_HOME and (r.cls not in self.classes or (self.mode == 'B' and f.attr in self.classes[r.cls])):
+                # (a method of the class being executed, called at statement level, may update the object: fork per path)
                 return r, f.attr
         return None
 
@@ -1409,6 +1529,18 @@ class Engine(object):
         if op is None:
             raise Unsupported("augmented operator")
         cur = self.ev(s.target, st, pc)
+        tgt = self.stmt_call_target(s.value, st)
+        if tgt is not None and isinstance(cur, list) and op == '+':
+            # lst += f(...): the callee may return lists of different length on different paths -> fork per callee path
+            args = [self.ev(a, st, pc) for a in s.value.args]
+            kw = {k.arg: self.ev(k.value, st, pc) for k in s.value.keywords}
+            out = []
+            for (st2, pc2, rv) in self.callee_paths(tgt, args, kw, st, pc, s):
+                if not isinstance(rv, list):
+                    raise Unsupported("list += non-list at line %d" % s.lineno)
+                self.assign(s.target, list(st2.vars[s.target.id] if isinstance(s.target, ast.Name) else cur) + rv, st2, pc2)
+                out.append((st2, pc2, None))
+            return out
         v = self.ev(s.value, st, pc)
         if isinstance(cur, ArrV):
             # numpy in-place element-wise update of the whole view
@@ -1527,14 +1659,24 @@ class Engine(object):
 
     def unroll(self, guard, body, _unused, st, pc):
         out = []
-        work = [(st, pc)]
+        work = [(st, pc, 0)]
         it = 0
+        bound = getattr(self, 'unroll_bound', None)
         while work:
             it += 1
             if it > 100000:
                 raise Unsupported("unrolling does not terminate")
-            st1, pc1 = work.pop()
+            st1, pc1, depth = work.pop()
             g = guard(st1, pc1)
+            if bound is not None and depth >= bound and g is not False:
+                # stated bound of a data-dependent loop: executions with more iterations are not explored
+                self.ncut = getattr(self, 'ncut', 0) + 1
+                if g is True:
+                    continue
+                pf = pc1.plus(bnot(g))
+                if self.feasible(pf):
+                    out.append((st1.copy(), pf, None))
+                continue
             if g is False:
                 out.append((st1, pc1, None))
                 continue
@@ -1552,7 +1694,7 @@ class Engine(object):
             for pcb in branches:
                 for (st2, pc2, o2) in self.exec_block(body, st1.copy(), pcb):
                     if o2 is None or o2[0] == 'continue':
-                        work.append((st2, pc2))
+                        work.append((st2, pc2, depth + 1))
                     elif o2[0] == 'break':
                         out.append((st2, pc2, None))
                     else:
